@@ -17,8 +17,10 @@ import (
 	"github.com/pokt-network/pocket-core/app"
 	"github.com/pokt-network/pocket-core/codec"
 	sdk "github.com/pokt-network/pocket-core/types"
+	appsTypes "github.com/pokt-network/pocket-core/x/apps/types"
 	authTypes "github.com/pokt-network/pocket-core/x/auth/types"
 	govTypes "github.com/pokt-network/pocket-core/x/gov/types"
+	nodesTypes "github.com/pokt-network/pocket-core/x/nodes/types"
 
 	"verif/harness"
 	"verif/harness/chain"
@@ -123,6 +125,47 @@ func TestC43(t *testing.T) {
 				c.Violation("C43/export/failed", "ExportAppState(%d) failed: %v", n.Height, err)
 				return
 			}
+			// Export-side oracle, independent of the import path: the exported JSON, parsed with the modules' own genesis
+			// types, must carry exactly the exporting node's node and application records (every field).
+			{
+				var gs app.GenesisState
+				if err := app.Codec().UnmarshalJSON(exported, &gs); err != nil {
+					c.Violation("C43/export/not-parseable", "exported app state does not parse: %v", err)
+					return
+				}
+				js := func(v interface{}) string {
+					b, err := app.Codec().MarshalJSON(v)
+					if err != nil {
+						return "ERR:" + err.Error()
+					}
+					return string(sdk.MustSortJSON(b))
+				}
+				var ng nodesTypes.GenesisState
+				if err := app.Codec().UnmarshalJSON(gs[nodesTypes.ModuleName], &ng); err != nil {
+					c.Violation("C43/export/nodes-genesis-not-parseable", "exported pos genesis does not parse: %v", err)
+					return
+				}
+				gotN := map[string]string{}
+				for _, v := range ng.Validators {
+					gotN[v.Address.String()] = js(v)
+				}
+				if d := diffView(want["nodes"], gotN); d != "" {
+					c.Violation("C43/export/node-records-differ-in-exported-json", "node records parsed from the exported genesis differ from the exporting node's records: %s", d)
+				}
+				var ag appsTypes.GenesisState
+				if err := app.Codec().UnmarshalJSON(gs[appsTypes.ModuleName], &ag); err != nil {
+					c.Violation("C43/export/apps-genesis-not-parseable", "exported application genesis does not parse: %v", err)
+					return
+				}
+				gotA := map[string]string{}
+				for _, a := range ag.Applications {
+					gotA[a.Address.String()] = js(a)
+				}
+				if d := diffView(want["apps"], gotA); d != "" {
+					c.Violation("C43/export/app-records-differ-in-exported-json", "application records parsed from the exported genesis differ from the exporting node's records: %s", d)
+				}
+				c.AddExtra("exported_records_compared", len(gotN)+len(gotA))
+			}
 			gpath := filepath.Join(work, "c43-genesis.json")
 			opath := filepath.Join(work, "c43-view.json")
 			_ = os.Remove(opath)
@@ -141,6 +184,8 @@ func TestC43(t *testing.T) {
 					sig = "C43/import/aborted-node-pool-mismatch"
 				case strings.Contains(msg, "module account total does not equal the amount in each application account"):
 					sig = "C43/import/aborted-app-pool-mismatch"
+				case strings.Contains(msg, "Incorrect address length"):
+					sig = "C43/import/aborted-account-address-not-20-bytes"
 				case strings.Contains(msg, "validator has less than minimum stake"):
 					sig = "C43/import/aborted-node-below-minimum-stake-rejected"
 				case strings.Contains(msg, "application has less than minimum stake"):
